@@ -88,7 +88,8 @@ def run(tier, replay=None):
         elif e["ev"] == "seg" and e["st"] == 200:
             nseg += 1
         hdr_at[i] = hdr
-    if nseg == 0 or st.get("frames", 0) == 0 or st.get("mpds", 0) == 0 or st.get("ll_multi_fragment", 0) == 0:
+    # (vacuity is judged only when nothing failed: a broken server may legitimately serve nothing of some kind)
+    if not r.bad and (nseg == 0 or st.get("frames", 0) == 0 or st.get("mpds", 0) == 0 or st.get("ll_multi_fragment", 0) == 0):
         raise MachineryError(f"vacuous run: {nseg} served segments, {st.get('frames')} frames, {st.get('mpds')} MPDs, "
                              f"{st.get('ll_multi_fragment')} chunked bodies with more than one fragment")
     for f in vlib.bad_to_failures(r, events):
